@@ -26,6 +26,7 @@ import (
 //	e<obj>  Enqueue(op obj) from its own goroutine          h<obj> same, but parked at verifPoint("enqueue:counted") until u<obj>
 //	P Pause()   F Flush()   S Start()   X Stop() (v1, own goroutine) / cancel() (v2)
 //	c<v> set the fake limiter's Capacity() to v             k<obj>:<cost> change op obj's Cost() (staleness injection)
+//	m<v> set the fake limiter's MaxCapacity() to v
 //	s    sample only
 func init() { register("hist", famHist) }
 
@@ -478,6 +479,12 @@ func runHist(s histScn) (line string) {
 				if lim != nil {
 					lim.capacity.Store(v)
 				}
+			case 'm':
+				v := atou(a.act[1:])
+				lg.add("act:m:%d", v)
+				if lim != nil {
+					lim.maxCap.Store(v)
+				}
 			case 'k':
 				p := strings.Split(a.act[1:], ":")
 				if len(p) == 2 {
@@ -674,6 +681,10 @@ func histRandom(r *rng, profile string) histScn {
 			act = fmt.Sprintf("c%d", uint32(uint64(r.pick(0, 1, 5, 50, 5000))*1000/uint64(flushEff/ms)))
 		case c < 32:
 			act = "S"
+			if s.lim && r.chance(1, 2) {
+				// the limiter's MaxCapacity() changes while the Batcher runs (a SharedResource whose capacities are reconfigured)
+				act = fmt.Sprintf("m%d", uint32(r.pick(0, 1, 2, 4, 8, 100)))
+			}
 		case c < 34:
 			act = "s"
 		case c < 35 && started:
